@@ -27,6 +27,9 @@
      element below size() alive - the basic guarantee in std::vector's sense; that no VISIBLE element is moved-from is
      false ([..._moved_from_visible_refuted]: known finding F25), and without the catch block of shift_right an element
      stayed alive beyond size() ([..._leak_before_fix_refuted]);
+   - [C09_tr_*] (SlotsTR.v): the trivially relocatable overloads (bitwise relocation, source slot raw afterwards): insert(pos, n,
+     v) and insert(pos, first, last) with their handler are strong at every position for every range content, single-element
+     insertion within capacity likewise; before the repair the gap stayed raw below size() ([C09_tr_insert_count_before_fix_refuted]);
    - sets [C09_flatset_*]: FlatSet::operator=(const FlatSet&), insert(first, last) and restoreInvariants() are REGENERATED
      from flatset.hpp (Gen/HintGen.v: the try block becomes a match on [thr : option (list Z)], [Some l'] = "an operation
      of the vector threw and left the vector as l'", for ANY l' - the vector only promises the basic guarantee).  Whatever
@@ -38,7 +41,7 @@
    the element ledger, the allocator ledger, contents (strong operations: unchanged) and usability are checked. *)
 From Coq Require Import ZArith List Bool Sorted.
 From Amc Require Import Throw.
-From Amc Require EmplaceGrow ThrowMove.
+From Amc Require EmplaceGrow ThrowMove SlotsTR.
 From Amc Require Hint HintTV.
 From Amc.Gen Require HintGen SsetGen.
 From Amc Require SsetTV.
@@ -235,3 +238,48 @@ Theorem C09_throwing_moves_leak_before_fix_refuted :
   exists m', Inv (ThrowMove.init 3 5) 3 5 /\ ThrowMove.shift_right1 false (ThrowMove.init 3 5) (Some 1%nat) 0 (3 - 0) = Threw m' /\
   m' 3%nat = Live 12 /\ ~ ThrowMove.Basic m' 3 5.
 Proof. exact ThrowMove.shift_right1_nofix_refuted. Qed.
+
+(* ---- trivially relocatable element types ---- *)
+Theorem C09_tr_insert_count_anywhere_strong :
+  forall m th size cap pos count v, Inv m size cap -> pos <= size -> size + count <= cap ->
+  match SlotsTR.insert_cnt_tr m th size pos count v with
+  | Done m' _ => (forall j, j < pos -> m' j = m j) /\ (forall j, pos <= j < pos + count -> m' j = Live v) /\
+                 (forall j, pos + count <= j < size + count -> m' j = m (j - count)) /\ Inv m' (size + count) cap
+  | Threw m' => forall j, m' j = m j
+  | Err _ => False
+  end.
+Proof. exact SlotsTR.insert_cnt_tr_strong. Qed.
+
+Theorem C09_tr_insert_range_anywhere_strong :
+  forall m th size cap pos l, Inv m size cap -> pos <= size -> size + length l <= cap ->
+  match SlotsTR.insert_range_tr m th size pos l with
+  | Done m' _ => (forall j, j < pos -> m' j = m j) /\ (forall k, k < length l -> m' (pos + k) = Live (nth k l 0%Z)) /\
+                 (forall j, pos + length l <= j < size + length l -> m' j = m (j - length l)) /\ Inv m' (size + length l) cap
+  | Threw m' => forall j, m' j = m j
+  | Err _ => False
+  end.
+Proof. exact SlotsTR.insert_range_tr_strong. Qed.
+
+Theorem C09_tr_insert_value_within_capacity_strong :
+  forall m th size cap pos v, Inv m size cap -> size < cap -> pos <= size ->
+  match SlotsTR.insert_n m th pos (size - pos) v with
+  | Threw m' => th = Some 0 /\ (forall j, m' j = m j)
+  | Done m' _ => (forall j, j < pos -> m' j = m j) /\ m' pos = Live v /\ (forall j, pos <= j < size -> m' (S j) = m j) /\
+                 Inv m' (size + 1) cap
+  | Err _ => False end.
+Proof. exact SlotsTR.insert_n_strong. Qed.
+
+Theorem C09_tr_emplace_within_capacity :
+  forall m th size cap pos e a k va, EmplaceNPre m size cap pos e a va ->
+  match SlotsTR.emplace_n m th pos (size - pos) e a k with
+  | Threw m' => k = Lvalue /\ th = Some 0 /\ (forall j, m' j = m j)
+  | Done m' _ => (forall j, j < pos -> m' j = m j) /\ m' pos = Live va /\ (forall j, pos <= j < size -> m' (S j) = m j) /\
+                 m' e = Raw /\ m' a = arg_after k va /\ Inv (blockview m' 0 cap) (size + 1) cap /\
+                 (forall j, size < j -> j <> e -> j <> a -> m' j = m j)
+  | Err _ => False end.
+Proof. exact SlotsTR.emplace_n_spec. Qed.
+
+Theorem C09_tr_insert_count_before_fix_refuted :
+  exists m', Inv (ThrowMove.init 5 9) 5 9 /\ SlotsTR.insert_cnt_tr_nofix (ThrowMove.init 5 9) (Some 1) 5 2 3 7%Z = Threw m' /\
+  map m' (seq 0 10) = [Live 10; Live 11; Raw; Raw; Raw; Live 12; Live 13; Live 14; Raw; Out]%Z /\ ~ Inv m' 5 9.
+Proof. exact SlotsTR.insert_cnt_tr_nofix_refuted. Qed.
